@@ -1324,8 +1324,13 @@ class RealFloat(numbers.Rational):
 
         # step 6. check if rounding was exact (if so, we're done)
         if lost.is_zero():
-            # just choose one of the rounding modes (RTZ)
-            rand_rm = RoundingMode.RTZ
+            # the extended-precision value is representable at `n`: it is
+            # `self`, or the neighbour of `self` that the extended rounding
+            # reached, so round towards that neighbour
+            if abs(xr) > abs(self):
+                rand_rm = RoundingMode.RAZ
+            else:
+                rand_rm = RoundingMode.RTZ
         else:
             # step 7. normalize `lost` so that `lost.n == n_rand`
             offset = lost._exp - (n_rand + 1)
